@@ -291,3 +291,85 @@ def enumerate_crash_states(root, run_create, limit=None, torn_mode="sample"):
     finally:
         shutil.rmtree(work, ignore_errors=True)
     return res
+
+
+# ---------------------------------------------------------------- interruption that unwinds (Ctrl-C, I/O error)
+def run_interrupted(fn, k, watch_prefix, exc=KeyboardInterrupt):
+    """run fn(); the k-th (0-based) mutating file-system call below watch_prefix (open for writing, mkdir, replace /
+    rename, remove) raises `exc` INSTEAD of being performed, so that the implementation's own handlers (except /
+    finally / context managers) run while the exception unwinds.  Returns True if the point was reached."""
+    cnt = [0]
+    hit = [False]
+    o_open, o_mkdir, o_replace, o_rename, o_remove, o_unlink = builtins.open, os.mkdir, os.replace, os.rename, os.remove, os.unlink
+
+    def watched(p):
+        try:
+            p = os.fspath(p)
+        except TypeError:
+            return False
+        return isinstance(p, str) and os.path.abspath(p).startswith(watch_prefix)
+
+    def tick():
+        if hit[0]:
+            return  # only once: the handlers themselves may touch the file system
+        if cnt[0] == k:
+            hit[0] = True
+            raise exc() if exc is KeyboardInterrupt else exc
+        cnt[0] += 1
+
+    def f_open(file, mode="r", *a, **kw):
+        if any(c in mode for c in "wax+") and isinstance(file, (str, bytes, os.PathLike)) and watched(file):
+            tick()
+        return o_open(file, mode, *a, **kw)
+
+    def wrap(orig, nargs):
+        def g(*a, **kw):
+            if any(watched(x) for x in a[:nargs]):
+                tick()
+            return orig(*a, **kw)
+
+        return g
+
+    builtins.open = f_open
+    os.mkdir, os.replace, os.rename, os.remove, os.unlink = wrap(o_mkdir, 1), wrap(o_replace, 2), wrap(o_rename, 2), wrap(o_remove, 1), wrap(o_unlink, 1)
+    try:
+        try:
+            fn()
+        except BaseException:
+            pass
+    finally:
+        builtins.open = o_open
+        os.mkdir, os.replace, os.rename, os.remove, os.unlink = o_mkdir, o_replace, o_rename, o_remove, o_unlink
+    return hit[0]
+
+
+def enumerate_interrupt_states(root, make_run, limit=40):
+    """root: prepared world (left untouched).  make_run(copy_root) -> callable that runs the real create on that copy.
+    For k = 0, 1, ...: a fresh copy, create interrupted at the k-th mutating call by an exception that unwinds, then the
+    same examination as after a kill.  Stops when the run completes without reaching point k."""
+    work = rt.mktemp("intr_")
+    res = {"states": 0, "unrecoverable": []}
+    try:
+        pre = committed_state(root)
+        # the complete run, for the "all or nothing" comparison
+        full = os.path.join(work, "full", os.path.basename(root))
+        os.makedirs(os.path.dirname(full))
+        shutil.copytree(root, full, symlinks=True)
+        make_run(full)()
+        post = committed_state(full)
+        for k in range(limit):
+            dst = os.path.join(work, "s%d" % k, os.path.basename(root))
+            os.makedirs(os.path.dirname(dst))
+            shutil.copytree(root, dst, symlinks=True)
+            reached = run_interrupted(make_run(dst), k, os.path.abspath(dst))
+            if not reached:
+                shutil.rmtree(os.path.dirname(dst), ignore_errors=True)
+                break
+            res["states"] += 1
+            # names in `post` carry the same frozen time stamp, so the comparison by name works
+            probs = check_recoverable(pre, dst, post, f"create interrupted (exception unwinding, e.g. Ctrl-C) at its mutating file-system call #{k}")
+            res["unrecoverable"].extend(probs)
+            shutil.rmtree(os.path.dirname(dst), ignore_errors=True)
+    finally:
+        shutil.rmtree(work, ignore_errors=True)
+    return res
